@@ -19,7 +19,8 @@ Record consts_facts : Prop := {
   cf_cl : 0 <= OFF_A_CLASS /\ OFF_A_CLASS + 2 <= ASUFFIX_SIZE;
   cf_rl : 0 <= OFF_A_RDLENGTH /\ OFF_A_RDLENGTH + 2 <= ASUFFIX_SIZE;
   cf_addr : ADDR_SIZE = RDLEN_A /\ 0 < ADDR_SIZE;
-  cf_reqlen : len ID_ONE + 10 = HEADER_SIZE /\ QSUFFIX_SIZE = 4
+  cf_reqlen : len ID_ONE + 10 = HEADER_SIZE /\ QSUFFIX_SIZE = 4;
+  cf_idx : 65536 <= SKIP_IDX_MOD       (* the name-skip index is at least as wide as the unsigned short length *)
 }.
 Lemma consts_ok : consts_facts.
 Proof. constructor; vm_compute; repeat split; congruence. Qed.
@@ -137,23 +138,21 @@ Proof.
   destruct (name_skip r) as [m|]; [|discriminate]. inversion H. specialize (IH m eq_refl). lia.
 Qed.
 
-Lemma scan_nonneg : forall fuel p L a, 0 <= a -> 0 <= scan fuel p L a.
-Proof.
-  induction fuel as [|k IH]; intros p L a Ha; cbn [scan]; [lia|].
-  destruct (a <? L); [|lia]. destruct (192 <=? nthz p a); [apply u16_range|].
-  destruct (nthz p a =? 0); [lia|]. apply IH; lia.
-Qed.
+Lemma idxw_small z : 0 <= z < 65536 -> idxw z = z.
+Proof. intros H. pose proof (cf_idx consts_ok). unfold idxw. apply Z.mod_small. lia. Qed.
 
+(* termination and meaning of the skip loop: needs len < 65535, i.e. no wrap of the index *)
 Lemma scan_spec : forall fuel p a, 0 <= a <= len p -> len p + 1 < 65536 -> len p - a <= Z.of_nat fuel ->
-  scan fuel p (len p) a = match name_skip (drop a p) with Some n => a + n | None => len p end.
+  scan fuel p (len p) a = Some (match name_skip (drop a p) with Some n => a + n | None => len p end).
 Proof.
   induction fuel as [|k IH]; intros p a Ha Hw Hf; cbn [scan].
-  - assert (a = len p) by lia. subst a. rewrite drop_all by lia. reflexivity.
+  - assert (a = len p) by lia. subst a. rewrite Z.ltb_irrefl. rewrite drop_all by lia. reflexivity.
   - destruct (a <? len p) eqn:E; [apply Z.ltb_lt in E | apply Z.ltb_ge in E].
     + rewrite (drop_cons_nth p a) by lia. cbn [name_skip].
-      destruct (192 <=? nthz p a); [apply u16_small; lia|].
-      destruct (nthz p a =? 0); [reflexivity|].
-      rewrite IH by lia. destruct (name_skip (drop (a + 1) p)); lia.
+      destruct (192 <=? nthz p a); [rewrite idxw_small by lia; reflexivity|].
+      destruct (nthz p a =? 0); [rewrite idxw_small by lia; reflexivity|].
+      rewrite idxw_small by lia.
+      rewrite IH by lia. destruct (name_skip (drop (a + 1) p)); f_equal; lia.
     + assert (a = len p) by lia. subst a. rewrite drop_all by lia. reflexivity.
 Qed.
 
@@ -165,7 +164,7 @@ Qed.
 
 Lemma parse_spec dl b : PREFIX_SIZE + HEADER_SIZE <= dl -> len b < 65536 ->
   match parse dl b with
-  | PFault => False
+  | PFault | PHang => False
   | PAddr a => valid_reply dl b a
   | _ => forall a, ~ valid_reply dl b a
   end.
@@ -190,7 +189,7 @@ Proof.
   assert (Lp : len p = len b - dl) by (unfold p; rewrite len_drop by lia; lia).
   rewrite <- Lp.
   replace (Z.to_nat (len p)) with (Z.to_nat (len p - 0)) by (f_equal; lia).
-  rewrite scan_spec by lia. rewrite drop_0.
+  rewrite scan_spec by lia. cbv beta iota. rewrite drop_0.
   destruct (name_skip p) as [n|] eqn:En.
   2:{ destruct (len p <=? len p + ASUFFIX_SIZE) eqn:E4; [|apply Z.leb_gt in E4; lia].
       intros a (_ & _ & _ & _ & n & Hn & _). fold p in Hn. congruence. }
@@ -235,8 +234,8 @@ Lemma parse_addr_iff dl b a : PREFIX_SIZE + HEADER_SIZE <= dl -> len b < 65536 -
 Proof.
   intros Hdl Hlen. pose proof (parse_spec dl b Hdl Hlen) as H. split.
   - intros E. rewrite E in H. exact H.
-  - intros V. destruct (parse dl b) as [| | |a'].
-    + contradiction. + exfalso; exact (H a V). + exfalso; exact (H a V).
+  - intros V. destruct (parse dl b) as [| | | |a'].
+    + contradiction. + contradiction. + exfalso; exact (H a V). + exfalso; exact (H a V).
     + f_equal. apply (valid_reply_functional dl b); assumption.
 Qed.
 
@@ -261,16 +260,18 @@ Record Inv (s : st) : Prop := {
   i_w : WInv s;
   i_prog : cbp s = true -> armed (tT s) = true \/ armed (tR s) = true }.
 
-Definition clean (o : list out) : Prop := ~ In Fault o /\ ~ In Fuel o.
+Definition clean (o : list out) : Prop := ~ In Fault o /\ ~ In Fuel o /\ ~ In Hang o.
 Definition addr_from (s : st) (o : list out) : Prop :=
   forall a, In (CB (Some a)) o -> success s = true /\ a = ip s.
 Definition same_core (s s' : st) : Prop :=
   now s' = now s /\ tc s' = tc s /\ success s' = success s /\ ip s' = ip s /\ dlen s' = dlen s /\
   reg s' = reg s /\ tT s' = tT s /\ fires s' = fires s /\ sres s' = sres s.
 
-Lemma clean_nil : clean []. Proof. split; intros []. Qed.
+Lemma clean_nil : clean []. Proof. repeat split; intros []. Qed.
 Lemma clean_app a b : clean a -> clean b -> clean (a ++ b).
-Proof. intros [A1 A2] [B1 B2]; split; intros H; apply in_app_or in H; tauto. Qed.
+Proof. intros (A1 & A2 & A3) (B1 & B2 & B3); repeat split; intros H; apply in_app_or in H; tauto. Qed.
+Lemma clean_cons_ne x o : x <> Fault -> x <> Fuel -> x <> Hang -> clean o -> clean (x :: o).
+Proof. intros N1 N2 N3 (A1 & A2 & A3); repeat split; intros [H|H]; auto. Qed.
 Lemma cb_count_app a b : cb_count (a ++ b) = cb_count a + cb_count b.
 Proof. unfold cb_count. rewrite filter_app, len_app. reflexivity. Qed.
 Lemma cb_count_nil : cb_count [] = 0. Proof. reflexivity. Qed.
@@ -309,7 +310,7 @@ Proof.
     + split; [|split; [|split; [|split; [|split]]]].
       * constructor; [constructor|]; sim; auto. discriminate.
       * reflexivity.
-      * split; intros [H|[]]; discriminate.
+      * apply clean_cons_ne; try discriminate; apply clean_nil.
       * intros a [H|[]]. destruct (success s); [inversion H; auto | discriminate].
       * unfold same_core; sim. tauto.
       * discriminate.
@@ -358,7 +359,7 @@ Proof.
   split; [|split; [|split; [|split]]].
   - constructor; [constructor|]; sim; auto; try lia; try (rewrite HR; discriminate).
   - reflexivity.
-  - split; intros [H|[H|[]]]; discriminate.
+  - repeat (apply clean_cons_ne; try discriminate). apply clean_nil.
   - intros a [H|[H|[]]]; discriminate.
   - repeat split; auto.
 Qed.
@@ -458,7 +459,7 @@ Proof.
     + exact I'.
     + change (Disconnect (now s1) :: o1) with ([Disconnect (now s1)] ++ o1).
       rewrite cb_count_app. unfold cb_count at 1; cbn [filter is_cb len length]. exact Hc.
-    + destruct Hcl as [C1 C2]. split; intros [H|H]; try discriminate; auto.
+    + apply clean_cons_ne; try discriminate; exact Hcl.
     + intros a [H|H]; [discriminate|]. apply (Ha a H).
     + exact S5.
     + lia.
@@ -587,13 +588,13 @@ Proof.
 Qed.
 
 (* ---------- single events ---------- *)
-Definition plain (x : out) : Prop := is_cb x = false /\ x <> Fault /\ x <> Fuel.
+Definition plain (x : out) : Prop := is_cb x = false /\ x <> Fault /\ x <> Fuel /\ x <> Hang.
 
 Lemma Tr_cons e s s' x o : plain x -> Tr e s s' o -> Tr e s s' (x :: o).
 Proof.
-  intros (P1 & P2 & P3) [A1 A2 A3 A4 A5 A6 A7]. constructor; auto.
+  intros (P1 & P2 & P3 & P4) [A1 A2 A3 A4 A5 A6 A7]. constructor; auto.
   - change (x :: o) with ([x] ++ o). rewrite cb_count_app. unfold cb_count at 1. cbn [filter]. rewrite P1. exact A2.
-  - destruct A3 as [C1 C2]. split; intros [H|H]; auto.
+  - apply clean_cons_ne; assumption.
   - intros a [H|H]; [subst x; discriminate | exact (A4 a H)].
 Qed.
 
@@ -612,7 +613,8 @@ Proof.
   intros I Hreg Hlen. destruct consts_ok as [_ _ Cr _].
   pose proof (wi_dl s (i_w s I) Hreg) as Hdl.
   pose proof (parse_spec (dlen s) b Hdl Hlen) as Hp.
-  unfold recv. destruct (parse (dlen s) b) as [| | |a] eqn:Ep.
+  unfold recv. destruct (parse (dlen s) b) as [| | | |a] eqn:Ep.
+  - contradiction.
   - contradiction.
   - destruct (result_Tr s I Hreg) as [T K].
     destruct (result_facts s (i_w s I) (or_introl Hreg)) as (_ & _ & _ & _ & Hs & _).
@@ -627,7 +629,7 @@ Proof.
     + constructor; sim.
       * constructor; [constructor|]; sim; auto.
       * reflexivity.
-      * split; intros [H|[]]; discriminate.
+      * apply clean_cons_ne; try discriminate; apply clean_nil.
       * intros a0 [H|[]]; discriminate.
       * reflexivity.
       * lia.
@@ -840,7 +842,7 @@ Proof.
 Qed.
 
 Theorem C20_reply_safe_thm : forall evs, Forall ev_ok evs ->
-  ~ In Fault (run evs) /\ ~ In Fuel (run evs).
+  ~ In Fault (run evs) /\ ~ In Fuel (run evs) /\ ~ In Hang (run evs).
 Proof. intros evs Hok. unfold run, CURRENT_FX. exact (proj2 (run_inv evs init init_inv Hok)). Qed.
 
 (* ---------- completion ---------- *)
